@@ -72,31 +72,129 @@ func strLit(e ast.Expr) (string, bool) {
 	return s, err == nil
 }
 
-func intLit(e ast.Expr) (int64, bool) {
+// the package-level declarations (name -> value expression), for constants that are named instead of written out
+var pkgDecls = map[string]ast.Expr{}
+
+func intLit(e ast.Expr) (int64, bool) { return intLitD(e, 0) }
+
+func intLitD(e ast.Expr, depth int) (int64, bool) {
+	if depth > 8 {
+		return 0, false
+	}
 	switch x := e.(type) {
 	case *ast.BasicLit:
 		if x.Kind == token.INT {
-			v, err := strconv.ParseInt(x.Value, 0, 64)
+			v, err := strconv.ParseInt(strings.ReplaceAll(x.Value, "_", ""), 0, 64)
 			return v, err == nil
+		}
+	case *ast.Ident: // a named constant of the package
+		if v, ok := pkgDecls[x.Name]; ok && v != nil {
+			return intLitD(v, depth+1)
+		}
+	case *ast.ParenExpr:
+		return intLitD(x.X, depth+1)
+	case *ast.UnaryExpr:
+		if v, ok := intLitD(x.X, depth+1); ok {
+			switch x.Op {
+			case token.SUB:
+				return -v, true
+			case token.ADD:
+				return v, true
+			}
+		}
+	case *ast.BinaryExpr:
+		l, ok1 := intLitD(x.X, depth+1)
+		r, ok2 := intLitD(x.Y, depth+1)
+		if ok1 && ok2 {
+			switch x.Op {
+			case token.ADD:
+				return l + r, true
+			case token.SUB:
+				return l - r, true
+			case token.MUL:
+				return l * r, true
+			case token.SHL:
+				if r >= 0 && r < 63 {
+					return l << uint(r), true
+				}
+			}
 		}
 	case *ast.SelectorExpr:
 		if id, ok := x.X.(*ast.Ident); ok && id.Name == "math" {
 			switch x.Sel.Name {
 			case "MaxInt8":
 				return 127, true
+			case "MinInt8":
+				return -128, true
+			case "MaxUint8":
+				return 255, true
 			case "MaxInt16":
 				return 32767, true
 			case "MinInt16":
 				return -32768, true
+			case "MaxUint16":
+				return 65535, true
+			case "MaxInt32":
+				return 2147483647, true
 			}
 		}
 	case *ast.CallExpr: // uint8(0b...), float64 conversions
 		if len(x.Args) == 1 {
-			return intLit(x.Args[0])
+			return intLitD(x.Args[0], depth+1)
 		}
 	}
 	return 0, false
 }
+
+// the functions of the package a function calls (by plain name or method name), transitively up to `depth` levels:
+// a constant or a comparison that moved into a helper is still found
+func (t *tr) withCallees(fd *ast.FuncDecl, depth int) []*ast.FuncDecl {
+	res := []*ast.FuncDecl{fd}
+	seen := map[*ast.FuncDecl]bool{fd: true}
+	frontier := []*ast.FuncDecl{fd}
+	for d := 0; d < depth; d++ {
+		var next []*ast.FuncDecl
+		for _, f := range frontier {
+			if f.Body == nil {
+				continue
+			}
+			ast.Inspect(f.Body, func(n ast.Node) bool {
+				ce, ok := n.(*ast.CallExpr)
+				if !ok {
+					return true
+				}
+				name := ""
+				switch fx := ce.Fun.(type) {
+				case *ast.Ident:
+					name = fx.Name
+				case *ast.SelectorExpr:
+					name = fx.Sel.Name
+				case *ast.IndexExpr: // explicit instantiation f[T](..)
+					if id, ok := fx.X.(*ast.Ident); ok {
+						name = id.Name
+					}
+				}
+				if name == "" {
+					return true
+				}
+				for _, file := range t.files {
+					for _, dcl := range file.Decls {
+						if g, ok := dcl.(*ast.FuncDecl); ok && g.Name.Name == name && !seen[g] {
+							seen[g] = true
+							res = append(res, g)
+							next = append(next, g)
+						}
+					}
+				}
+				return true
+			})
+		}
+		frontier = next
+	}
+	return res
+}
+
+func normExpr(s string) string { return strings.ToLower(strings.ReplaceAll(s, " ", "")) }
 
 func coqStr(s string) string { return `"` + strings.ReplaceAll(s, `"`, `""`) + `"` }
 
@@ -201,14 +299,35 @@ func (t *tr) eqStrings(fn string) []string {
 	if fd == nil {
 		return res
 	}
-	ast.Inspect(fd.Body, func(n ast.Node) bool {
-		if be, ok := n.(*ast.BinaryExpr); ok && be.Op == token.EQL {
-			if s, ok := strLit(be.Y); ok {
-				res = append(res, s)
+	collect := func(body *ast.BlockStmt) {
+		ast.Inspect(body, func(n ast.Node) bool {
+			switch x := n.(type) {
+			case *ast.BinaryExpr:
+				if x.Op == token.EQL {
+					if s, ok := strLit(x.Y); ok {
+						res = append(res, s)
+					} else if s, ok := strLit(x.X); ok {
+						res = append(res, s)
+					}
+				}
+			case *ast.CaseClause: // switch name { case "and", "&", "&&": ... }
+				for _, e := range x.List {
+					if s, ok := strLit(e); ok {
+						res = append(res, s)
+					}
+				}
+			}
+			return true
+		})
+	}
+	collect(fd.Body)
+	if len(res) == 0 {
+		for _, g := range t.withCallees(fd, 2)[1:] {
+			if g.Body != nil {
+				collect(g.Body)
 			}
 		}
-		return true
-	})
+	}
 	if len(res) == 0 {
 		t.fail("%s: no string comparisons found", fn)
 	}
@@ -222,16 +341,49 @@ func (t *tr) cmpConst(fn, xs string, op token.Token) int64 {
 		return 0
 	}
 	var found []int64
-	ast.Inspect(fd.Body, func(n ast.Node) bool {
-		if be, ok := n.(*ast.BinaryExpr); ok && be.Op == op {
-			if exprString(be.X) == xs {
-				if v, ok := intLit(be.Y); ok {
-					found = append(found, v)
+	flip := map[token.Token]token.Token{token.LSS: token.GTR, token.GTR: token.LSS, token.LEQ: token.GEQ, token.GEQ: token.LEQ, token.MUL: token.MUL, token.ADD: token.ADD}
+	// x > n == x >= n+1, x < n == x <= n-1, x >= n == x > n-1, x <= n == x < n+1 (integers)
+	alt := map[token.Token]struct {
+		op token.Token
+		d  int64
+	}{token.GTR: {token.GEQ, -1}, token.LSS: {token.LEQ, 1}, token.GEQ: {token.GTR, 1}, token.LEQ: {token.LSS, -1}}
+	assignOp := map[token.Token]token.Token{token.MUL: token.MUL_ASSIGN, token.ADD: token.ADD_ASSIGN}
+	want := normExpr(xs)
+	scan := func(body *ast.BlockStmt) {
+		ast.Inspect(body, func(n ast.Node) bool {
+			switch x := n.(type) {
+			case *ast.BinaryExpr:
+				if x.Op == op && normExpr(exprString(x.X)) == want {
+					if v, ok := intLit(x.Y); ok {
+						found = append(found, v)
+					}
+				} else if f, ok := flip[op]; ok && x.Op == f && normExpr(exprString(x.Y)) == want {
+					if v, ok := intLit(x.X); ok {
+						found = append(found, v)
+					}
+				} else if a, ok := alt[op]; ok && x.Op == a.op && normExpr(exprString(x.X)) == want {
+					if v, ok := intLit(x.Y); ok {
+						found = append(found, v+a.d)
+					}
+				}
+			case *ast.AssignStmt: // res *= 10000
+				if ao, ok := assignOp[op]; ok && x.Tok == ao && len(x.Lhs) == 1 && len(x.Rhs) == 1 && normExpr(exprString(x.Lhs[0])) == want {
+					if v, ok := intLit(x.Rhs[0]); ok {
+						found = append(found, v)
+					}
 				}
 			}
+			return true
+		})
+	}
+	scan(fd.Body)
+	if len(found) == 0 {
+		for _, g := range t.withCallees(fd, 3)[1:] {
+			if g.Body != nil {
+				scan(g.Body)
+			}
 		}
-		return true
-	})
+	}
 	if len(found) == 0 {
 		t.fail("%s: pattern `%s %s <int>` not found", fn, xs, op)
 		return 0
@@ -308,6 +460,19 @@ func main() {
 			os.Exit(3)
 		}
 		t.files[fn] = f
+		for _, d := range f.Decls {
+			if gd, ok := d.(*ast.GenDecl); ok && gd.Tok == token.CONST {
+				for _, sp := range gd.Specs {
+					if vs, ok := sp.(*ast.ValueSpec); ok {
+						for i, n := range vs.Names {
+							if i < len(vs.Values) {
+								pkgDecls[n.Name] = vs.Values[i]
+							}
+						}
+					}
+				}
+			}
+		}
 	}
 
 	var b strings.Builder
